@@ -39,6 +39,12 @@ func init() {
 
 const wgs84Geo = "+proj=longlat +datum=WGS84 +no_defs"
 
+// tcache, when not nil, keeps the transformers of the current case: in half of the cases the
+// positions of a case go through ONE forward and ONE inverse transformer, the ordinary way of using
+// them (a transformer that carries anything over from one point to the next - the height left by a
+// datum shift, say - drifts from the second point on).
+var tcache map[string]proj.Transformer
+
 type res struct {
 	x, y float64
 	err  string
@@ -58,9 +64,15 @@ func once(src, dst string, x, y float64) (r res) {
 	if err != nil {
 		return res{err: "parse: " + err.Error()}
 	}
-	t, err := s.NewTransform(d)
-	if err != nil {
-		return res{err: "NewTransform: " + err.Error()}
+	t, cached := tcache[src+"\x00"+dst]
+	if !cached {
+		t, err = s.NewTransform(d)
+		if err != nil {
+			return res{err: "NewTransform: " + err.Error()}
+		}
+		if tcache != nil {
+			tcache[src+"\x00"+dst] = t
+		}
 	}
 	if t == nil {
 		return res{x: x, y: y}
@@ -88,6 +100,11 @@ func lonDiff(a, b float64) float64 {
 
 func run(c *core.Ctx, idx int) {
 	r := c.R
+	tcache = nil
+	if r.Chance(0.5) {
+		tcache = map[string]proj.Transformer{}
+		c.Count("transformers.shared_by_the_positions_of_a_case")
+	}
 	mode := r.Intn(11) // 0-5 same datum, 6-7 WGS84 in area of use, 8-9 WGS84 with small random towgs84, 10 geographic partner without datum
 	var d *crsgen.Def
 	var geo string
